@@ -104,6 +104,7 @@ def run(case):
            (["shared-axis"] if len({tuple(e.get('axes', [])) for e in case['ecs']}) < len(case["ecs"]) else [])
     res = {"tags": tags, "oracle": None, "impl": {"err": None}, "model_req": None}
     fails = []
+    observing = False
     try:
         cube = E.build_cube(case["shape"], case["fam"], case["wseed"], case["ecs"])
         nd = cube.data.ndim
@@ -123,6 +124,7 @@ def run(case):
             res["impl"]["err"] = err_kind(e)
             fails.append(f"slicing a cube with extra coords by a valid index raised {type(e).__name__}: {str(e)[:120]}")
             raise StopIteration
+        observing = True
         # which source element each surviving element is
         idx = np.indices(cube.data.shape)
         src = [apply_np(ix, case["chain"]) for ix in idx]
@@ -197,6 +199,11 @@ def run(case):
             res["tags"].append("fresh-interpreters")
     except StopIteration:
         pass
+    except Exception as e:
+        if not observing:
+            raise
+        # the slices themselves were accepted: coordinates that cannot be evaluated afterwards are not the source's
+        fails.append(f"evaluating the extra coordinates of the sliced cube raised {type(e).__name__}: {str(e)[:120]}")
     if fails:
         res["oracle"] = "; ".join(fails[:2])
     return res
